@@ -283,8 +283,12 @@ def run(ctx: Context, rep) -> None:
         rep.ob("C11.stages", got == want, loc=sel_fn_.loc(),
                where=sel_fn_.qualname, construct=f"options {key}: {got}",
                message=f"expected stages {want}", sample=False)
-
-
+    # selection sees every shard of the split (same walk check as C02.walk)
+    # and loading a list does not rewrite the recorded metadata values (same
+    # check as C20.validators)
+    from sa.rules import shared as _sh11
+    _sh11.share_rules(ctx, rep, "c02", {"C02.walk": "C11.walk"})
+    _sh11.share_rules(ctx, rep, "c20", {"C20.validators": "C11.validators"})
 
 _P = "src/sedpack/io/dataset_filler.py"
 _ATTACH = ("            current_progress.shard.shard_info.custom_metadata = copy.deepcopy(\n"
